@@ -392,5 +392,13 @@ def r11_every_borrower_is_asked(chk):
     r7_every_component_is_asked(chk, rule='C19.R11', meths=('getData',), attrs=('_borrowers',))
 
 
+def r12_borrowers_answer_from_configuration(chk):
+    """borrowers are tried in the order added for every module: one that remembers an earlier failure is skipped"""
+    common.lookups_leave_no_trace(chk, 'C19.R12', [('pysmi/borrower/base.py', 'AbstractBorrower'),
+                                                   ('pysmi/borrower/pyfile.py', 'PyFileBorrower'),
+                                                   ('pysmi/borrower/anyfile.py', 'AnyFileBorrower')], 'getData',
+                                  'borrowers', floor=3)
+
+
 RULES = [r1_borrow_loop, r2_hand_over, r3_flavour, r4_requested_stay_eligible, r5_failed_map_consistency, r6_argument_agreement,
-         r7_borrower_order_is_fixed, r8_borrowed_status_survives_the_write, r9_wellformedness, t1_typestate, r10_borrowed_text_read_verbatim, r11_every_borrower_is_asked]
+         r7_borrower_order_is_fixed, r8_borrowed_status_survives_the_write, r9_wellformedness, t1_typestate, r10_borrowed_text_read_verbatim, r11_every_borrower_is_asked, r12_borrowers_answer_from_configuration]
